@@ -4,6 +4,11 @@ use crate::execution::ColumnScope;
 use crate::parsing::tokenizer::{ParserErrorType, Token, Keyword, ParserToken, tokenize, ParserError, TokenLocation};
 use crate::parsing::operator::{BinaryOperators, UnaryOperators, Operator};
 
+// Precedence levels that are not in the operator table: casts and subscripts bind tighter than unary minus,
+// which binds tighter than every binary operator; NOT binds looser than the comparisons but tighter than AND.
+const POSTFIX_PRECEDENCE: i32 = 8;
+const COMPARE_PRECEDENCE: i32 = 4;
+
 pub fn parse_str(text: &str) -> ParserResult<ParserOperationTree> {
     let tokens = tokenize(text)?;
 
@@ -729,8 +734,14 @@ impl<'a> Parser<'a> {
             let op = self.current().clone();
             self.next()?;
 
-            let mut rhs = self.parse_unary_operator()?;
-            if token_precedence < self.get_token_precedence()? {
+            let mut rhs = if op == Token::LeftSquareParentheses {
+                // The subscript is a complete expression, delimited by the brackets
+                self.parse_expression_internal()?
+            } else {
+                self.parse_unary_operator()?
+            };
+
+            if op != Token::LeftSquareParentheses && token_precedence < self.get_token_precedence()? {
                 rhs = self.parse_binary_operator_rhs(token_precedence + 1, rhs)?;
             }
 
@@ -773,7 +784,8 @@ impl<'a> Parser<'a> {
                         ParserExpressionTreeData::Tuple { values } => {
                             values
                         }
-                        _ => { return Err(ParserError::new(op_location, ParserErrorType::ExpectedTuple)); }
+                        // A list of one element is a parenthesized expression
+                        _ => vec![rhs]
                     };
 
                     lhs = ParserExpressionTree::new(
@@ -786,7 +798,7 @@ impl<'a> Parser<'a> {
                         ParserExpressionTreeData::Tuple { values } => {
                             values
                         }
-                        _ => { return Err(ParserError::new(op_location, ParserErrorType::ExpectedTuple)); }
+                        _ => vec![rhs]
                     };
 
                     lhs = ParserExpressionTree::new(
@@ -823,14 +835,14 @@ impl<'a> Parser<'a> {
                     None => Err(self.create_error(ParserErrorType::NotDefinedBinaryOperator(op.clone())))
                 }
             }
-            Token::DoubleColon => Ok(7),
-            Token::Keyword(Keyword::Is) => Ok(2),
-            Token::Keyword(Keyword::IsNot) => Ok(2),
-            Token::Keyword(Keyword::In) => Ok(2),
-            Token::Keyword(Keyword::NotIn) => Ok(2),
-            Token::Keyword(Keyword::And) => Ok(1),
+            Token::DoubleColon => Ok(POSTFIX_PRECEDENCE),
+            Token::LeftSquareParentheses => Ok(POSTFIX_PRECEDENCE),
+            Token::Keyword(Keyword::Is) => Ok(COMPARE_PRECEDENCE),
+            Token::Keyword(Keyword::IsNot) => Ok(COMPARE_PRECEDENCE),
+            Token::Keyword(Keyword::In) => Ok(COMPARE_PRECEDENCE),
+            Token::Keyword(Keyword::NotIn) => Ok(COMPARE_PRECEDENCE),
+            Token::Keyword(Keyword::And) => Ok(2),
             Token::Keyword(Keyword::Or) => Ok(1),
-            Token::LeftSquareParentheses => Ok(1),
             _ => Ok(-1)
         }
     }
@@ -947,7 +959,14 @@ impl<'a> Parser<'a> {
             _ => {}
         };
 
+        // The operand of a unary minus extends over casts, subscripts and member accesses, the operand of NOT
+        // over everything that binds tighter than NOT (the comparisons and the arithmetic operators)
         let operand = self.parse_unary_operator()?;
+        let operand = match op_token {
+            Token::Keyword(Keyword::Not) => self.parse_binary_operator_rhs(COMPARE_PRECEDENCE, operand)?,
+            _ => self.parse_binary_operator_rhs(POSTFIX_PRECEDENCE, operand)?
+        };
+
         match op_token {
             Token::Operator(op) => {
                 if !self.unary_operators.exists(&op) {
